@@ -32,6 +32,7 @@ pub fn strategy_of(name: &str) -> BoxedStrategy<History> {
                 h.board.buffer_ms = h.board.lead_ms / 2;
                 h.board.nb_offset_ms = o * 15;
                 h.board.tx_ms = t * 7;
+                h.board.nb_duration_ms = [100, 150, 999, 1000, 1001, 3000][(h.rng_seed % 6) as usize];
                 h
             })
             .boxed(),
